@@ -170,6 +170,17 @@ def k_se3(run, case):
     ta = rng.normal(size=3) * 10.0**rng.uniform(-6, 9)
     tb = rng.normal(size=3) * 10.0**rng.uniform(-6, 9)
     A, B = L.se3(Ra, ta), L.se3(Rb, tb)
+    spelled = None
+    if rng.random() < .2:
+        # the same numbers in the containers callers have them in: extended precision (kept that
+        # way for map coordinates), plain sequences, a 3 x 1 column is not documented and left out
+        spelled = ["t:longdouble", "r:longdouble", "t:list", "t:tuple", "r,t:longdouble"][rng.integers(5)]
+        r_arg = Ra.astype(np.longdouble) if spelled.startswith("r") else Ra
+        t_arg = ta.astype(np.longdouble) if "longdouble" in spelled and "t" in spelled.split(":")[0] else \
+            ta.tolist() if spelled == "t:list" else tuple(ta.tolist()) if spelled == "t:tuple" else ta
+        A = L.se3(r_arg, t_arg)
+        run.check(bool(L.is_se3(A)), "se3 built from other containers is accepted as a group element", case,
+                  "se3(%s) gives dtype %s, is_se3 False" % (spelled, np.asarray(A).dtype), key="se3:constructor-container")
     int_a = bool(rng.random() < .15)
     if int_a:
         # a hand-written axis-aligned pose with integer entries (as in evo's own tests), mixed with a float pose
